@@ -7,3 +7,4 @@
 //!                that contain no logic of their own beyond marshalling.
 pub mod facade;
 pub mod io_tap;
+pub mod probe;
